@@ -3,10 +3,11 @@ import Strengths.Driver.Units
 import Strengths.Driver.Grid
 import Strengths.Driver.Engine
 import Strengths.Driver.Kinetics
+import Strengths.Driver.Build
 
 namespace Strengths.Driver
 
 def allOps : List (String × Handler) :=
-  unitsOps ++ gridOps ++ engineOps ++ kineticsOps
+  unitsOps ++ gridOps ++ engineOps ++ kineticsOps ++ buildOps
 
 end Strengths.Driver
